@@ -17,11 +17,13 @@ import (
 	"runtime/debug"
 	"strconv"
 	"strings"
+	"time"
 
 	"github.com/btcsuite/btcd/btcec/v2"
 	"gitlab.com/aquachain/aquachain/aqua/accounts"
 	"gitlab.com/aquachain/aquachain/aqua/accounts/keystore"
 	"gitlab.com/aquachain/aquachain/common"
+	"gitlab.com/aquachain/aquachain/core/types"
 	"gitlab.com/aquachain/aquachain/crypto"
 	"gitlab.com/aquachain/aquachain/verifharness/vh"
 	"golang.org/x/crypto/pbkdf2"
@@ -383,6 +385,23 @@ func onlyIVDiffers(a, b parsed) bool {
 	return ta[8] != tb[8]
 }
 
+// onlyVersionDiffers: a v3 document whose version member alone was changed to the string "1"
+func onlyVersionDiffers(a, b parsed) bool {
+	if !a.ok || !b.ok || !a.v1 || b.v1 {
+		return false
+	}
+	ta, tb := strings.Split(a.tok, ","), strings.Split(b.tok, ",")
+	if len(ta) != len(tb) {
+		return false
+	}
+	for i := range ta {
+		if i > 1 && ta[i] != tb[i] {
+			return false
+		}
+	}
+	return true
+}
+
 // ------------------------------------------------------------ file construction
 
 type fileSpec struct {
@@ -566,7 +585,9 @@ func (h *harness) check(class string, spec fileSpec, js []byte, pass string, tam
 	}
 	// bare DecryptKey (Import, Export use it without an address comparison)
 	if d.ok && (!bytes.Equal(d.key, spec.kb) || d.addr != spec.addr) {
-		if onlyIVDiffers(ps, parseFile(spec.js)) {
+		if onlyVersionDiffers(ps, parseFile(spec.js)) {
+			c.Violate("decryptkey-version-not-authenticated", "bare DecryptKey returns a different key after the version member of a v3 file is changed to \"1\": the MAC does not cover version/cipher, the V1 path skips the cipher check and AES-CBC-decrypts the CTR ciphertext, whose PKCS7 padding is valid for about 1 in 256 files (GetKey rejects it through the address comparison)", rp)
+		} else if onlyIVDiffers(ps, parseFile(spec.js)) {
 			c.Violate("decryptkey-iv-not-authenticated", "bare DecryptKey returns a different key after an IV edit: the Web3 secret-storage MAC does not cover the IV (GetKey rejects it through the address comparison)", rp)
 		} else {
 			c.Violate("decryptkey-yields-other-key/"+tamper+"/"+string(js), "DecryptKey returned a different key after tampering", rp)
@@ -960,6 +981,48 @@ func (h *harness) keystoreFlow(r *vh.RNG, i int) {
 	if err := ks.Unlock(acc, pass3); err != nil {
 		fail("unlock-after-update", err)
 	}
+	// TimedUnlock: wrong passphrase refused; signs for the right address while unlocked; locked again after the timeout
+	ks.Lock(acc.Address)
+	if err := ks.TimedUnlock(acc, pass3+"x", 50*time.Millisecond); err == nil {
+		fail("timed-unlock-wrong-passphrase", "accepted")
+	}
+	if _, err := signer(ks, acc); err == nil {
+		fail("sign-after-refused-timed-unlock", "signed")
+	}
+	if err := ks.TimedUnlock(acc, pass3, 80*time.Millisecond); err != nil {
+		fail("timed-unlock", err)
+	} else {
+		if a, err := signer(ks, acc); err != nil || a != acc.Address {
+			fail("sign-after-timed-unlock", fmt.Sprint(a, err))
+		}
+		if !keystore.NoSignMode() {
+			tx := types.NewTransaction(1, common.Address{7}, big.NewInt(1), 21000, big.NewInt(1), nil)
+			for _, cid := range []*big.Int{nil, big.NewInt(61717561)} {
+				stx, err := ks.SignTx(acc, tx, cid)
+				var sg types.Signer = types.HomesteadSigner{}
+				if cid != nil {
+					sg = types.NewEIP155Signer(cid)
+				}
+				if err != nil {
+					fail("signtx-after-unlock", err)
+				} else if a, err := types.Sender(sg, stx); err != nil || a != acc.Address {
+					fail("signtx-sender", fmt.Sprint(a, err))
+				}
+			}
+			if sig, err := ks.SignHashWithPassphrase(acc, pass3, hash); err != nil {
+				fail("sign-with-passphrase", err)
+			} else if pub, err := crypto.SigToPub(hash, sig); err != nil || crypto.PubkeyToAddress(pub) != acc.Address {
+				fail("sign-with-passphrase-address", err)
+			}
+			if _, err := ks.SignHashWithPassphrase(acc, pass3+"z", hash); err == nil {
+				fail("sign-with-wrong-passphrase", "signed")
+			}
+		}
+		time.Sleep(200 * time.Millisecond)
+		if _, err := signer(ks, acc); err == nil {
+			fail("sign-after-timed-unlock-expired", "signed")
+		}
+	}
 	// tamper with the stored file: IV edit, then unlock must fail or keep the address
 	raw, _ := os.ReadFile(acc.URL.Path)
 	var doc map[string]interface{}
@@ -1072,6 +1135,20 @@ func main() {
 		} else if done[spec.kind] <= c.Scale(2, 12) {
 			h.sweepCharacters(spec, false, c.Scale(13, 3))
 		}
+	}
+	// 3b. directed: a v3 file whose CTR ciphertext happens to CBC-decrypt to valid PKCS7 padding,
+	//     with its version changed to "1" (neither version nor cipher is covered by the MAC)
+	for try := 0; try < 20000; try++ {
+		key := genKey(r, 0)
+		pass := "v1-downgrade"
+		js := buildManual(r, "scrypt-v3", key, pass)
+		mut := bytes.Replace(js, []byte(`"version":3}`), []byte(`"version":"1"}`), 1)
+		if _, err := keystore.DecryptKey(mut, pass); err != nil {
+			continue
+		}
+		spec := fileSpec{kind: "scrypt-v3", js: js, key: key, kb: crypto.FromECDSA(key), addr: crypto.PubkeyToAddress(key.PubKey()), pass: pass}
+		h.check("scrypt-v3/version-downgrade", spec, mut, pass, "version=1")
+		break
 	}
 	// 4. KeyStore API
 	for i := 0; i < c.Scale(4, 24); i++ {
